@@ -13,7 +13,7 @@ import os, json, subprocess, time, re
 from concurrent.futures import ThreadPoolExecutor
 
 # which property owns a failing *level* conjunct (L1/L2/L3/EMB) by event kind
-LEVEL_OWNER = {"Construct": "C01", "Insert": "C02", "InsertCopy": "C09", "Remove": "C06", "Flip": "C07", "Repair": "C08"}
+LEVEL_OWNER = {"Construct": "C01", "Insert": "C02", "InsertCopy": "C02", "Remove": "C06", "Flip": "C07", "Repair": "C08"}
 
 
 class Ctx:
